@@ -266,5 +266,5 @@ class ProductDomain(Domain):
             return a_points.join(b_points)
         else:
             assert d is not None
-            n = int(d * self.volume(device=device))
+            n = int(d * self.volume(params, device=device))
             return self.sample_random_uniform(n=n, params=params, device=device)
